@@ -6,7 +6,9 @@ import (
 	"net"
 	"os"
 	"strconv"
+	"strings"
 	"sync"
+	"syscall"
 	"time"
 
 	"github.com/grafana/carbon-relay-ng/destination"
@@ -20,6 +22,8 @@ import (
 //	l <hex> [bits]      hand one line to the destination (blocking send on dest.In, as routes do)
 //	pace <us>           sleep after every hand-off
 //	down / up           close the endpoint (listener and connections) / listen again on the same port
+//	silent              build an endpoint that never answers connection attempts (listen backlog 0, accept queue full)
+//	update addr=silent|addr=ep|prefix=<s>   Destination.Update in a goroutine of its own, as the admin interface does (modDest)
 //	sleep <ms>
 //	keep <ms>           keepSafe rotation period of the connections of the next cfg (default: the code's 10 s)
 //	hold <hex>          hold HandleData at its schedule point when it has received exactly this line (until `release`)
@@ -116,6 +120,39 @@ func (e *endpoint) totalRecv() int {
 
 var destSeq int
 
+// an endpoint that does not answer connection attempts: a listening socket with backlog 0 whose accept queue is full.
+// Linux drops further SYNs, so a connect() to it hangs until the kernel gives up (minutes). "" if it cannot be built.
+var silentKeep []net.Conn
+
+func silentEndpoint() string {
+	fd, err := syscall.Socket(syscall.AF_INET, syscall.SOCK_STREAM, 0)
+	if err != nil {
+		return ""
+	}
+	if err := syscall.Bind(fd, &syscall.SockaddrInet4{Addr: [4]byte{127, 0, 0, 1}}); err != nil {
+		return ""
+	}
+	if err := syscall.Listen(fd, 0); err != nil {
+		return ""
+	}
+	sa, err := syscall.Getsockname(fd)
+	if err != nil {
+		return ""
+	}
+	addr := fmt.Sprintf("127.0.0.1:%d", sa.(*syscall.SockaddrInet4).Port)
+	for i := 0; i < 64; i++ {
+		c, err := net.DialTimeout("tcp", addr, 300*time.Millisecond)
+		if err != nil {
+			if ne, ok := err.(net.Error); ok && ne.Timeout() {
+				return addr
+			}
+			return ""
+		}
+		silentKeep = append(silentKeep, c)
+	}
+	return ""
+}
+
 func init() {
 	subs["dest"] = func(args []string) {
 		var ep *endpoint
@@ -126,6 +163,7 @@ func init() {
 		pace := time.Duration(0)
 		sent := 0
 		keep := 10 * time.Second
+		silentAddr := ""
 		var holdMu sync.Mutex
 		var holdLine []byte
 		var held, release chan bool
@@ -224,6 +262,23 @@ func init() {
 				}
 				sent = 0
 				pace = 0
+			case "silent":
+				silentAddr = silentEndpoint()
+				emit("silent %v", silentAddr != "")
+			case "update":
+				opts := map[string]string{}
+				for _, kv := range f[1:] {
+					p := strings.SplitN(kv, "=", 2)
+					v := p[1]
+					if p[0] == "addr" && v == "silent" {
+						v = silentAddr
+					} else if p[0] == "addr" && v == "ep" {
+						v = ep.addr
+					}
+					opts[p[0]] = v
+				}
+				dd := d
+				go dd.Update(opts)
 			case "keep":
 				ms, _ := strconv.Atoi(f[1])
 				keep = time.Duration(ms) * time.Millisecond
@@ -261,10 +316,19 @@ func init() {
 				us, _ := strconv.Atoi(f[1])
 				pace = time.Duration(us) * time.Microsecond
 			case "l":
+				// exactly what SendAllMatch.Dispatch does per destination: `if dest.Match(buf) { dest.In <- buf }`
 				b := unhexArg(f[1])
 				t0 := time.Now()
+				done := make(chan bool, 1)
+				dd := d
+				go func() {
+					if dd.Match(b) {
+						dd.In <- b
+					}
+					done <- true
+				}()
 				select {
-				case d.In <- b:
+				case <-done:
 					sent++
 					if dt := time.Since(t0); dt > maxHandoff {
 						maxHandoff = dt
